@@ -33,7 +33,7 @@ class Interner:
 
 
 def body_key(spec, n):
-    return (n["kind"], n["name"], n["const"], n["setconst"], n["tupconst"], n["nested"], n.get("sset"), n.get("pair"), n["default"] is not None,
+    return (n["kind"], n["name"], n["const"], n["setconst"], n["tupconst"], n["nested"], n.get("sset"), n.get("pair"), n.get("shadow"), n["default"] is not None,
             n["kwdefault"] is not None, tuple(sorted(map(tuple, n["refs"]))), n["hidden"])
 
 
@@ -92,7 +92,8 @@ def honour_pins(old, new):
 
 
 def make_history(rng, n_edits, concat_scenario=False):
-    spec = vprog.gen_spec(rng, n_m=rng.randint(2, 4), n_p=rng.randint(1, 3), n_v=rng.randint(1, 3), p_hidden=0.12, p_explicit=0.2, allow_cycles=False)
+    spec = vprog.gen_spec(rng, n_m=rng.randint(2, 4), n_p=rng.randint(1, 3), n_v=rng.randint(1, 3), p_hidden=0.12, p_explicit=0.2, allow_cycles=False,
+                          pkg2=rng.random() < 0.4)
     eds, descs = [spec], ["initial"]
     for _ in range(n_edits):
         nxt, d = vprog.edit(rng, eds[-1])
@@ -120,6 +121,39 @@ def concat_history():
     return [mk("1", "23", 10, 20), mk("12", "3", 11, 22)], ["initial", "explicit versions '1','23' -> '12','3' with new bodies"]
 
 
+def cross_package_history():
+    """a memento function of one package uses a memento function of another package, which uses a plain helper and a
+    variable of its own package; the helper's body, its default and the variable are edited"""
+    def fn(name, kind, module, const, refs=(), default=None):
+        return {"name": name, "kind": kind, "module": module, "const": const, "default": default, "kwdefault": None, "setconst": None, "tupconst": None,
+                "sset": None, "pair": None, "nested": None, "explicit": None, "hidden": None, "refs": [list(r) for r in refs]}
+
+    def mk(hconst, hdefault, gval):
+        return {"pkg": "vpk", "nodes": [{"name": "G0", "kind": "v", "module": "c", "vkind": "int", "value": gval},
+                                        fn("h0", "p", "c", hconst, [("G0", "bare")], hdefault),
+                                        fn("m1", "m", "c", 20, [("h0", "bare")]),
+                                        fn("h1", "p", "a", 3, [("m1", "attr")]),
+                                        fn("m0", "m", "a", 30, [("m1", "attr")]),
+                                        fn("m2", "m", "b", 40, [("h1", "attr")])]}
+    return ([mk(5, 1, 2), mk(6, 1, 2), mk(6, 2, 2), mk(6, 2, 3)],
+            ["initial", "helper-const: body constant of h0 (helper of another package's memento function)", "default value of h0", "value of variable G0"])
+
+
+def shadow_history():
+    """functions that read a module variable and also contain a nested scope with a parameter of the same name"""
+    def fn(name, kind, module, const, refs=(), shadow=None):
+        return {"name": name, "kind": kind, "module": module, "const": const, "default": None, "kwdefault": None, "setconst": None, "tupconst": None,
+                "sset": None, "pair": None, "nested": 2, "explicit": None, "hidden": None, "shadow": shadow, "refs": [list(r) for r in refs]}
+
+    def mk(g0, g1):
+        return {"pkg": "vpk", "nodes": [{"name": "G0", "kind": "v", "module": "a", "vkind": "int", "value": g0},
+                                        {"name": "G1", "kind": "v", "module": "a", "vkind": "int", "value": g1},
+                                        fn("h0", "p", "a", 4, [("G1", "bare")], shadow="G1"),
+                                        fn("m0", "m", "a", 10, [("G0", "bare")], shadow="G0"),
+                                        fn("m1", "m", "a", 20, [("h0", "bare")])]}
+    return [mk(1, 2), mk(5, 2), mk(5, 7)], ["initial", "value of variable G0 (also the name of a lambda parameter in m0)", "value of variable G1 (also the name of a lambda parameter in h0)"]
+
+
 def calls_of(spec):
     return [[m, x] for m in vprog.mnames(spec) if vprog.node(spec, m)["explicit"] is None for x in (1, 2)]
 
@@ -136,9 +170,13 @@ def run(tier, seed):
     terms, metas = [], []
     with C.Scratch("c01") as scratch:
         jobs = []
-        for hi in range(n_hist + 1):
+        for hi in range(n_hist + 3):
             if hi == n_hist:
                 eds, descs = concat_history()
+            elif hi == n_hist + 1:
+                eds, descs = cross_package_history()
+            elif hi == n_hist + 2:
+                eds, descs = shadow_history()
             else:
                 eds, descs = make_history(rng, rng.randint(2, 4) if tier == "quick" else rng.randint(2, 6))
             jobs.append((hi, eds, descs, rng.choice(["reload", "exec"]), str(rng.randint(0, 100000))))
@@ -164,7 +202,7 @@ def run(tier, seed):
                 editions = []
                 prev = None
                 for k, spec in enumerate(eds):
-                    files = {mod: vprog.render_module(spec, mod) for mod in "ab"}
+                    files = {mod: vprog.render_module(spec, mod) for mod in vprog.modules_of(spec)}
                     ed = {"calls": calls, "version_order": ms, "how": how, "files": files, "setattrs": []}
                     if prev is not None:
                         # a pure variable edit is delivered by rebinding the module attribute
